@@ -50,6 +50,18 @@ def step (s : S) (ws : List String) : S × String :=
     match id.toNat? with
     | some id => if s.oracleOnly then after s (s.r.delObj id) else (s, "bad-op")
     | none => (s, "bad-op")
+  | ["multi", spec] =>
+    -- several user writes of ONE transaction: the loop sees them all at once
+    let r := (spec.splitOn ",").foldl (fun (r : R) (sp : String) =>
+      if sp.startsWith "d" then
+        match (sp.drop 1).toString.toNat? with | some id => r.delObj id | none => r
+      else if sp.startsWith "p" then
+        match (sp.drop 1).toString.splitOn ":" with
+        | [a, b] => match a.toNat?, b.toNat? with | some id, some d => r.userPut id d | _, _ => r
+        | _ => r
+      else r) s.r
+    after s r
+  | ["initdone"] => after s s.r
   | ["touch", id] =>
     match id.toNat? with
     | some id => after s (s.r.touch id)
